@@ -506,6 +506,10 @@ func ToRune(source []byte, pos int) rune {
 			break
 		}
 	}
+	if i < 0 {
+		// no rune starts at or before pos
+		return utf8.RuneError
+	}
 	r, _ := utf8.DecodeRune(source[i:])
 	return r
 }
